@@ -727,6 +727,53 @@ def gen_sites():
 GENERATORS['Sites.v'] = gen_sites
 
 
+# ---------------------------------------------------------------- the two syn versions the lock file pins
+def gen_syn_idents():
+    """the identifiers syn refuses as `Ident` (accept_as_ident), read from the vendored sources of exactly the syn 1.x and 2.x
+    versions /repo/Cargo.lock pins - the one point where the two back-ends' parsers differ on plain tokens (C18)"""
+    lock = read('Cargo.lock')
+    vers = re.findall(r'name = "syn"\s*\nversion = "([0-9.]+)"', lock)
+    home = os.environ.get('CARGO_HOME', os.path.expanduser('~/.cargo'))
+    import glob
+    lists = {}
+    for major in ('1', '2'):
+        vs = [v for v in vers if v.split('.')[0] == major]
+        if len(vs) != 1:
+            raise TranslateError('Cargo.lock: expected exactly one syn %s.x, found %r' % (major, vs))
+        paths = glob.glob(os.path.join(home, 'registry', 'src', '*', 'syn-' + vs[0], 'src', 'ident.rs'))
+        if not paths:
+            raise TranslateError('vendored source of syn %s not found under %s' % (vs[0], home))
+        src = strip_comments(open(paths[0]).read())
+        i = src.find('fn accept_as_ident')
+        if i < 0:
+            raise TranslateError('syn %s: accept_as_ident not found' % vs[0])
+        body = src[src.index('{', i):]
+        body = body[:matching(body, 0) + 1]
+        m = re.search(r'match\s+ident\.to_string\(\)\.as_str\(\)\s*\{(.*?)=>\s*false\s*,\s*_\s*=>\s*true\s*,?\s*\}', body, re.S)
+        if not m:
+            raise TranslateError('syn %s: accept_as_ident is not the expected `match .. { "a" | "b" => false, _ => true }`' % vs[0])
+        names = re.findall(r'"([^"]*)"', m.group(1))
+        rest = re.sub(r'"[^"]*"', '', m.group(1))
+        if re.sub(r'[\s|]', '', rest):
+            raise TranslateError('syn %s: unexpected tokens in accept_as_ident: %r' % (vs[0], rest.strip()[:80]))
+        lists[major] = (vs[0], names)
+    o = []
+    o.append('(* GENERATED by tools/translate.py from the vendored syn sources pinned by /repo/Cargo.lock - do not edit. *)')
+    o.append('From Coq Require Import List String.')
+    o.append('Import ListNotations.')
+    o.append('Open Scope string_scope.')
+    for major in ('1', '2'):
+        v, names = lists[major]
+        o.append('Definition syn%s_version : string := %s.' % (major, coq_str(v)))
+        o.append('(* syn %s src/ident.rs accept_as_ident: these are refused, every other identifier is accepted *)' % v)
+        o.append('Definition syn%s_refused_idents : list string := %s.' % (major, coq_strs(names)))
+    o.append('')
+    return '\n'.join(o), {'syn1': lists['1'][0], 'syn2': lists['2'][0], 'n1': len(lists['1'][1]), 'n2': len(lists['2'][1])}
+
+
+GENERATORS['SynIdents.v'] = gen_syn_idents
+
+
 def main():
     os.makedirs(OUT, exist_ok=True)
     summary = {}
